@@ -196,3 +196,25 @@ Theorem C19_check_iff_gen : forall tyorder root args out sc se,
   load_analyze tyorder root args out sc se = analyze tyorder root args out sc se.
 Proof. exact load_vs_gen. Qed.
 Print Assumptions C19_check_iff_gen.
+
+(* ------------------------------------------------------------------ C12 *)
+Theorem C12_check_field_sound : forall lit fields f,
+  check_field lit fields = CfOk f ->
+  In f fields /\ quote (sf_name f) = lit /\ is_prevented (sf_tag f) = false.
+Proof. exact check_field_sound. Qed.
+Print Assumptions C12_check_field_sound.
+
+Theorem C12_star_selects_unprevented : forall fields f,
+  In f (star_fields fields) <-> In f fields /\ is_prevented (sf_tag f) = false.
+Proof. exact star_fields_spec. Qed.
+Print Assumptions C12_star_selects_unprevented.
+
+Theorem C12_struct_provider_outputs : forall s p,
+  struct_provider s = inl p ->
+  pv_outs p = [sp_t s; sp_tptr s] /\ pv_struct p = true /\ pv_cleanup p = false /\ pv_err p = false /\
+  NoDup (pv_args p) /\
+  exists fs, pv_args p = map sf_type fs /\ pv_fields p = map sf_name fs /\
+             Forall (fun f => In f (sp_fields s) /\ is_prevented (sf_tag f) = false) fs /\
+             (all_fields (sp_lits s) = true -> fs = star_fields (sp_fields s)).
+Proof. exact struct_provider_spec. Qed.
+Print Assumptions C12_struct_provider_outputs.
